@@ -38,9 +38,12 @@ EXPLANATION = (
     "inverse/transposed/rows of 2x2 and 3x3 matrices, multiplicativity of det, composition and inversion of affine maps, "
     "xfmPoint/xfmVector/xfmNormal, quaternion product laws, matrix-from-quaternion against q v conj(q), every branch of "
     "quaternion-from-matrix, Rodrigues form of rotate, rotate-about-a-point, lookat, yaw/pitch/roll. This decides the "
-    "exact-arithmetic clause for all inputs at once. Not decided: the tolerance/conditioning clause (floating-point "
-    "rounding), slerp and orthogonal() (iterative / transcendental), frame() (selects between vector objects, outside "
-    "the IR fragment), the SIMD rcp/rsqrt approximations (C07).")
+    "exact-arithmetic clause for all inputs at once. Three shape rules on the type-checked AST/CFG add: every branch of "
+    "quaternion-from-matrix is taken only where its pivot is >= 1 (linear program over the guards), slerp applies the "
+    "hemisphere correction before interpolating, and orthogonal() is the Newton step (X + X^-T)/2 whose constant budget and "
+    "early-exit threshold bring every singular value in [1/64, 64] within 1e-6 of 1 (interval iteration of s -> (s+1/s)/2). "
+    "Not decided: floating-point rounding beyond those clauses, the interpolation formula of slerp (transcendental), "
+    "frame() (selects between vector objects, outside the IR fragment), the SIMD rcp/rsqrt approximations (C07).")
 
 DRIVER = 'drivers/alg_linalg.cpp'
 FLOOR = 50
@@ -335,12 +338,368 @@ def check_slerp(ctx, tu):
     ctx.floor(R, n, 2, 'slerp<float>, slerp<double>')
 
 
+# ============================================================================================
+#  orthogonal(): Newton iteration for the polar factor, decided in the singular-value domain
+# ============================================================================================
+ORTH_SIGMA = 64.0      # singular values of the inputs lie in [1/64, 64] (condition number <= 64 at unit scale)
+ORTH_TOL = 1e-6        # |sigma - 1| of the result (orthonormality to a few float ulp)
+
+
+class _NoForm(Exception):
+    pass
+
+
+def _mat_terms(tu, e, env, cls, depth=0):
+    """linear combination {(inv, transp): coeff} over the loop's iterate M of a matrix-valued expression"""
+    e = tu.strip(e)
+    if e is None or depth > 30:
+        raise _NoForm('?')
+    k = e.get('kind')
+    s = tu.sd(e)
+    if k == 'DeclRefExpr':
+        d = e['referencedDecl'].get('id')
+        if d in env:
+            return dict(env[d])
+        raise _NoForm('value of `%s` not tracked' % e['referencedDecl'].get('name'))
+    if k in ('CXXConstructExpr', 'CXXTemporaryObjectExpr', 'CXXFunctionalCastExpr'):
+        ks = tu.kids(e)
+        if len(ks) == 1:
+            return _mat_terms(tu, ks[0], env, cls, depth + 1)
+        raise _NoForm(tu.show(e))
+    if k in ('CXXOperatorCallExpr', 'CallExpr', 'CXXMemberCallExpr'):
+        sd, obj, args = tu.call_parts(e)
+        name = sd.get('q', '').split('::')[-1]
+        if k == 'CXXMemberCallExpr' or (k == 'CXXOperatorCallExpr' and sd.get('rec')):
+            if sd.get('rec', '') != cls.split('<')[0]:
+                raise _NoForm(tu.show(e))
+            if name == 'transposed' and not args:
+                return {(i, not t): c for (i, t), c in _mat_terms(tu, obj, env, cls, depth + 1).items()}
+            if name == 'inverse' and not args:
+                return _invert(_mat_terms(tu, obj, env, cls, depth + 1))
+            raise _NoForm(tu.show(e))
+        if name == 'rcp' and len(args) == 1:
+            return _invert(_mat_terms(tu, args[0], env, cls, depth + 1))
+        if name in ('operator+', 'operator-') and len(args) == 2:
+            a = _mat_terms(tu, args[0], env, cls, depth + 1)
+            b = _mat_terms(tu, args[1], env, cls, depth + 1)
+            sg = 1.0 if name == 'operator+' else -1.0
+            for t, c in b.items():
+                a[t] = a.get(t, 0.0) + sg * c
+            return a
+        if name == 'operator-' and len(args) == 1:
+            return {t: -c for t, c in _mat_terms(tu, args[0], env, cls, depth + 1).items()}
+        if name in ('operator*', 'operator/') and len(args) == 2:
+            c0, c1 = _scalar_const(tu, args[0]), _scalar_const(tu, args[1])
+            if name == 'operator*' and c0 is not None and c1 is None:
+                return {t: c0 * c for t, c in _mat_terms(tu, args[1], env, cls, depth + 1).items()}
+            if c1 is not None and c0 is None and (name == 'operator*' or c1 != 0):
+                f = c1 if name == 'operator*' else 1.0 / c1
+                return {t: f * c for t, c in _mat_terms(tu, args[0], env, cls, depth + 1).items()}
+        h = _single_return(tu, e)
+        if h is not None and obj is None:
+            fn, ret = h
+            env2 = _bind(tu, fn, args, env, cls, depth)
+            return _mat_terms(tu, ret, env2, cls, depth + 1)
+        raise _NoForm(tu.show(e))
+    raise _NoForm(tu.show(e))
+
+
+def _single_return(tu, call):
+    """(function, returned expression) of a callee defined in this unit whose body is a single return statement"""
+    fn = tu.callee_fn(call)
+    if fn is None or fn.get('dep') or tu.body(fn) is None:
+        return None
+    ks = tu.kids(tu.body(fn))
+    if len(ks) == 1 and ks[0].get('kind') == 'ReturnStmt' and tu.kids(ks[0]):
+        return fn, tu.kids(ks[0])[0]
+    return None
+
+
+def _bind(tu, fn, args, env, cls, depth):
+    env2 = {}
+    for p, a in zip(fn['params'], args):
+        try:
+            env2[p['id']] = _mat_terms(tu, a, env, cls, depth + 1)
+        except _NoForm:
+            pass
+    return env2
+
+
+def _measure(tu, c, env, scal, cls, depth=0):
+    """(threshold, difference terms) of an early-exit test `max(|D.vx|^2, |D.vy|^2) < threshold` (possibly inside a one-line helper)"""
+    c = tu.strip(c)
+    if c is None or depth > 6:
+        raise _NoForm('?')
+    if c.get('kind') in ('CallExpr', 'CXXMemberCallExpr'):
+        h = _single_return(tu, c)
+        sd, obj, args = tu.call_parts(c)
+        if h is not None and (obj is None or tu.is_this(obj)):
+            return _measure(tu, h[1], _bind(tu, h[0], args, env, cls, depth), {}, cls, depth + 1)
+    if c.get('kind') != 'BinaryOperator' or c.get('opcode') not in ('<', '<='):
+        raise _NoForm('early-exit test `%s` not of the form `measure < constant`' % tu.show(c)[:80])
+    l, r = tu.kids(c)
+    thr = _scalar_const(tu, r)
+    m = tu.strip(l)
+    if m.get('kind') == 'DeclRefExpr' and m['referencedDecl'].get('id') in scal:
+        m, env = scal[m['referencedDecl']['id']]
+        m = tu.strip(m)
+    cols = {}
+    if m.get('kind') == 'CallExpr' and tu.sd(m).get('q', '').split('::')[-1] == 'max' and len(tu.kids(m)) == 3:
+        for d in tu.kids(m)[1:]:
+            d = tu.strip(d)
+            if d.get('kind') == 'CallExpr' and tu.sd(d).get('q', '').split('::')[-1] == 'dot' and len(tu.kids(d)) == 3:
+                x, y = (tu.strip(z) for z in tu.kids(d)[1:])
+                if x.get('kind') == y.get('kind') == 'MemberExpr' and x.get('name') == y.get('name'):
+                    tx = _mat_terms(tu, tu.kids(x)[0], env, cls)
+                    ty = _mat_terms(tu, tu.kids(y)[0], env, cls)
+                    if tx == ty:
+                        cols[x.get('name')] = tx
+    if thr is None or set(cols) != {'vx', 'vy'} or cols['vx'] != cols['vy']:
+        raise _NoForm('early-exit measure `%s` is not max(|d.vx|^2, |d.vy|^2) of a tracked difference' % tu.show(l)[:100])
+    return thr, cols['vx']
+
+
+def _invert(t):
+    t = {a: c for a, c in t.items() if c != 0}
+    if len(t) != 1:
+        raise _NoForm('inverse of a sum')
+    (i, tr), c = list(t.items())[0]
+    return {(not i, tr): 1.0 / c}
+
+
+def _scalar_const(tu, e):
+    e = tu.strip(e, casts=True)
+    if e is None:
+        return None
+    if e.get('kind') in ('FloatingLiteral', 'IntegerLiteral'):
+        try:
+            return float(e.get('value'))
+        except (TypeError, ValueError):
+            return None
+    if e.get('kind') == 'UnaryOperator' and e.get('opcode') == '-':
+        v = _scalar_const(tu, tu.kids(e)[0])
+        return -v if v is not None else None
+    cv = tu.sd(e).get('cv')
+    return float(cv) if cv is not None else None
+
+
+def _h_image(a, b, lo, hi):
+    """image of [lo,hi] (lo>0) under h(s) = a*s + b/s"""
+    pts = [lo, hi]
+    if a * b > 0:
+        sc = (b / a) ** 0.5
+        if lo < sc < hi:
+            pts.append(sc)
+    vals = [a * x + b / x for x in pts]
+    return min(vals), max(vals)
+
+
+def check_orthogonal(ctx, tu):
+    """LinearSpace2::orthogonal(): the loop body is X <- a X + b X^-T with constant a, b (transposed()/inverse() themselves are identities
+    P1), which acts on every singular value as s <- a s + b/s.  Interval iteration of that scalar map from [1/64, 64] over the loop's constant
+    budget, and the bound implied by the early-exit test, must leave |s - 1| <= 1e-6: then the result is orthonormal to that tolerance and is
+    the polar factor (the iteration never changes the singular vectors)."""
+    R = 'R-C06-orth'
+    ctx.describe(R, 'orthogonal(): the iteration is X <- (X + X^-T)/2 and its constant budget and early-exit threshold bring every singular '
+                    'value in [1/64, 64] to within 1e-6 of 1 (interval iteration of s <- (s + 1/s)/2)')
+    n = 0
+    for f in sorted(tu.functions.values(), key=lambda x: x['fty']):
+        if f['dep'] or not f['q'].endswith('::orthogonal') or 'LinearSpace2<' not in f['q'] or tu.body(f) is None:
+            continue
+        n += 1
+        inst = 'orthogonal %s' % f['q'].replace('rkcommon::math::', '')
+        key = '%s|rkcommon/math/LinearSpace.h|LinearSpace2::orthogonal|' % R
+        cls = f['q'].rsplit('::', 1)[0]
+        body = tu.body(f)
+        loops = [x for x in tu.walk(body) if x.get('kind') in ('ForStmt', 'WhileStmt', 'DoStmt', 'CXXForRangeStmt')]
+        if len(loops) != 1 or loops[0]['kind'] != 'ForStmt':
+            ctx.undecided(R, inst, 'expected exactly one counted for-loop, found %s' % ([x['kind'] for x in loops] or 'none'), tu.fn_loc(f))
+            continue
+        loop = loops[0]
+        raw = loop.get('inner', [])
+        if len(raw) != 5:
+            ctx.undecided(R, inst, 'for-statement layout not recognised', tu.loc(loop))
+            continue
+        init, _cv, cond, inc, lbody = raw
+        # ---- constant budget
+        trips = None
+        try:
+            iv = [v for v in tu.walk(init) if v.get('kind') == 'VarDecl']
+            assert len(iv) == 1 and tu.kids(iv[0])
+            a0 = _scalar_const(tu, tu.kids(iv[0])[-1])
+            c = tu.strip(cond)
+            flag = None
+            if c.get('kind') == 'BinaryOperator' and c.get('opcode') == '&&':
+                for a, b in (tu.kids(c), tu.kids(c)[::-1]):
+                    b = tu.strip(b)
+                    if b.get('kind') == 'UnaryOperator' and b.get('opcode') == '!' and tu.ref_decl(tu.kids(b)[0]) is not None:
+                        flag = tu.ref_decl(tu.kids(b)[0])
+                        c = tu.strip(a)
+                        break
+                assert flag is not None
+                fd = tu.node(flag)
+                assert fd is not None and fd.get('kind') == 'VarDecl' and tu.kids(fd) and \
+                    tu.strip(tu.kids(fd)[-1]).get('kind') == 'CXXBoolLiteralExpr' and not tu.strip(tu.kids(fd)[-1]).get('value')
+            l, r = tu.kids(c)
+            assert tu.ref_decl(l) == iv[0]['id'] and c.get('opcode') in ('<', '<=', '!=')
+            nmax = _scalar_const(tu, r)
+            i2 = tu.strip(inc)
+            assert i2.get('kind') == 'UnaryOperator' and i2.get('opcode') == '++' and tu.ref_decl(tu.kids(i2)[0]) == iv[0]['id']
+            assert a0 is not None and nmax is not None
+            for x in tu.walk(lbody):
+                if x.get('kind') == 'DeclRefExpr' and x.get('referencedDecl', {}).get('id') == iv[0]['id']:
+                    raise AssertionError('counter used in the body')
+            trips = int(nmax - a0) + (1 if c['opcode'] == '<=' else 0)
+        except (AssertionError, ValueError, TypeError, KeyError):
+            ctx.undecided(R, inst, 'loop budget is not a constant count `for (i = a; i < N; ++i)`', tu.loc(loop))
+            continue
+        # ---- the iterate and the body's effect on it
+        stmts = tu.kids(lbody) if lbody.get('kind') == 'CompoundStmt' else [lbody]
+        outer = {}
+        for v in tu.walk(body):
+            if v.get('kind') == 'VarDecl' and cls.split('<')[0].split('::')[-1] in v.get('type', {}).get('qualType', ''):
+                outer[v['id']] = v
+        inloop = set(v['id'] for v in tu.walk(lbody) if v.get('kind') == 'VarDecl')
+        assigned = set()
+        for x in tu.walk(lbody):
+            if x.get('kind') == 'CXXOperatorCallExpr' and tu.sd(x).get('q', '').endswith('operator='):
+                d = tu.ref_decl(tu.kids(x)[1]) if len(tu.kids(x)) > 1 else None
+                if d in outer and d not in inloop:
+                    assigned.add(d)
+        if len(assigned) != 1:
+            ctx.undecided(R, inst, 'no single matrix iterate assigned in the loop body', tu.loc(loop))
+            continue
+        mid = list(assigned)[0]
+        env = {mid: {(False, False): 1.0}}
+        scal = {}
+        breaks = []
+        why = None
+        for st in stmts:
+            st = tu.strip(st) if st.get('kind') == 'ExprWithCleanups' else st
+            k = st.get('kind')
+            try:
+                if k == 'DeclStmt':
+                    for v in tu.kids(st):
+                        if v.get('kind') != 'VarDecl' or not tu.kids(v):
+                            raise _NoForm(tu.show(st))
+                        if v['id'] in outer:
+                            env[v['id']] = _mat_terms(tu, tu.kids(v)[-1], env, cls)
+                        else:
+                            scal[v['id']] = (tu.kids(v)[-1], dict(env))
+                elif k == 'CXXOperatorCallExpr' and tu.sd(st).get('q', '').endswith('operator=') and tu.ref_decl(tu.kids(st)[1]) in outer:
+                    env[tu.ref_decl(tu.kids(st)[1])] = _mat_terms(tu, tu.kids(st)[2], env, cls)
+                elif k == 'IfStmt':
+                    ks = tu.kids(st)
+                    th = ks[1] if len(ks) > 1 else None
+                    if th is not None and th.get('kind') == 'CompoundStmt' and len(tu.kids(th)) == 1:
+                        th = tu.kids(th)[0]
+                    if len(ks) != 2 or th is None or th.get('kind') != 'BreakStmt':
+                        raise _NoForm('if-statement other than `if (small) break;`')
+                    breaks.append((ks[0], dict(env), 'break'))
+                elif k == 'BinaryOperator' and st.get('opcode') == '=' and flag is not None and tu.ref_decl(tu.kids(st)[0]) == flag:
+                    breaks.append((tu.kids(st)[1], dict(env), 'flag'))
+                elif k in ('NullStmt',):
+                    pass
+                else:
+                    raise _NoForm(tu.show(st))
+            except _NoForm as e:
+                why = str(e)
+                break
+        if why:
+            ctx.undecided(R, inst, 'loop body outside the recognised forms: %s' % why[:160], tu.loc(loop))
+            continue
+        new = {t: c for t, c in env[mid].items() if abs(c) > 0}
+        A = new.pop((False, False), 0.0)
+        B = new.pop((True, True), 0.0)
+        if new:
+            other = sorted(new)
+            if set(other) <= {(True, False)} and not B:
+                ctx.violation(R, inst, 'the step uses the inverse without the transpose (X <- %g X + %g X^-1): its fixed points are the '
+                              'involutions, not the orthogonal matrices, so the result is not the closest orthogonal matrix' % (A, new[(True, False)]),
+                              tu.loc(loop), key=key + 'step-form')
+            else:
+                ctx.undecided(R, inst, 'step is not a combination of X and X^-T', tu.loc(loop))
+            continue
+        # ---- interval iteration of s <- A s + B / s
+        lo, hi = 1.0 / ORTH_SIGMA, ORTH_SIGMA
+        ok_iter = True
+        for _ in range(min(trips, 4000)):
+            if lo <= 0:
+                ok_iter = False
+                break
+            lo, hi = _h_image(A, B, lo, hi)
+        err_budget = max(abs(lo - 1), abs(hi - 1)) if ok_iter else float('inf')
+        newton = abs(A - 0.5) < 1e-12 and abs(B - 0.5) < 1e-12
+        if not newton and A < 1 and B > 0 and (1 - A) > 0:
+            fx = (B / (1 - A)) ** 0.5         # fixed point of s <- A s + B/s: the input fx*I never moves, whichever exit is taken
+            if 1.0 / ORTH_SIGMA <= fx <= ORTH_SIGMA and abs(fx - 1) > ORTH_TOL:
+                ctx.violation(R, inst, 'the step X <- %g X + %g X^-T maps a singular value s to %g s + %g/s, whose fixed point is %.6g, not 1: the '
+                              'input %.6g*I is returned unchanged although it is not orthogonal' % (A, B, A, B, fx, fx),
+                              tu.loc(loop), key=key + 'step-form')
+                continue
+        # ---- early exit
+        err_break = 0.0
+        und = None
+        for cnd, envb, how in breaks:
+            if not newton:
+                und = 'early exit of a non-Newton step'
+                break
+            try:
+                thr, dv = _measure(tu, cnd, envb, scal, cls)
+            except _NoForm as e:
+                und = str(e)
+                break
+            dv = {t: cc for t, cc in dv.items() if abs(cc) > 1e-15}
+            if dv not in ({(False, False): -0.5, (True, True): 0.5}, {(False, False): 0.5, (True, True): -0.5}):
+                und = 'early-exit difference is not (new iterate - old iterate)'
+                break
+            delta = (2.0 * thr) ** 0.5        # |s_new - s_old| <= sqrt(2 c): Frobenius norm <= sqrt(2) max column norm
+            mval = env[mid] if how == 'flag' else envb[mid]     # a flag exit happens after the rest of the body has run
+            cur = {t: cc for t, cc in mval.items() if abs(cc) > 0}
+            if cur == {(False, False): 1.0}:
+                eb = 2.0 * delta                                   # the old iterate is returned: |s_old - 1| <= 2 |s_new - s_old|
+            else:
+                eb = 2.0 * delta * delta / max(1e-300, 1.0 - 2.0 * delta) if delta < 0.5 else float('inf')
+            err_break = max(err_break, eb)
+        if und:
+            ctx.undecided(R, inst, und, tu.loc(loop))
+            continue
+        if not newton and err_budget > ORTH_TOL:
+            ctx.violation(R, inst, 'the step X <- %g X + %g X^-T maps a singular value s to %g s + %g/s; after the %d budgeted iterations a '
+                          'singular value starting in [1/64, 64] can still be %.6g away from 1' % (A, B, A, B, trips, err_budget),
+                          tu.loc(loop), key=key + 'step-form')
+            continue
+        if err_budget > ORTH_TOL:
+            ctx.violation(R, inst, 'iteration budget %d is too small: the Newton step halves a large singular value per iteration, so an input with '
+                          'singular value 64 (or 1/64) still has singular value 1 + %.3g when the loop gives up; the result is not orthonormal '
+                          '(|Q^T Q - I| ~ %.3g); at least %d iterations are needed' % (trips, err_budget, 2 * err_budget, _min_trips()),
+                          tu.loc(loop), key=key + 'budget')
+            continue
+        if err_break > ORTH_TOL:
+            ctx.violation(R, inst, 'the early exit can leave the loop while a singular value is still %.3g away from 1 (bound from the exit '
+                          'threshold and the iterate that is returned)' % err_break, tu.loc(loop), key=key + 'early-exit')
+            continue
+        ctx.ok(R, inst, 'step (X + X^-T)/2; budget %d leaves |s-1| <= %.3g; early exit leaves |s-1| <= %.3g' % (trips, err_budget, err_break),
+               tu.loc(loop))
+    ctx.floor(R, n, 2, 'LinearSpace2<vec2f>::orthogonal, LinearSpace2<vec2d>::orthogonal')
+
+
+def _min_trips():
+    lo, hi = 1.0 / ORTH_SIGMA, ORTH_SIGMA
+    for k in range(1, 200):
+        lo, hi = _h_image(0.5, 0.5, lo, hi)
+        if max(abs(lo - 1), abs(hi - 1)) <= ORTH_TOL:
+            return k
+    return 200
+
+
 def run(ctx):
     R = 'R-C06'
     ctx.describe(R, 'lhs and rhs of the identity driver have the same exact rational-function normal form for every output '
                     'slot on every pair of consistent paths (or the __zero driver vanishes)')
     for a in ('real-number semantics of float operations (no rounding, no NaN/inf/-0)', 'denominators (det, |q|^2, |u|) are non-zero',
-              'sin/cos of one argument satisfy sin^2+cos^2=1; sqrt(x)^2 = x', 'absence of undefined behaviour in the compiled drivers'):
+              'sin/cos of one argument satisfy sin^2+cos^2=1; sqrt(x)^2 = x', 'absence of undefined behaviour in the compiled drivers',
+              'orthogonal(): the singular values of the input lie in [1/64, 64] (condition number <= 64 at unit scale), exact arithmetic'):
         ctx.assume(a)
     ir_units = []
     for vname, opts in variants(ctx):
@@ -422,6 +781,7 @@ def run(ctx):
     tu = ctx.front.parse(SHAPE_DRIVER, 'TBB')
     check_branch_conditioning(ctx, tu)
     check_slerp(ctx, tu)
+    check_orthogonal(ctx, tu)
     ctx.extra['ir_units'] = ir_units
     ctx.extra['programs'] = len(ir_units)
     ctx.extra['disagreements_checked'] = len(ctx.obl)
